@@ -23,7 +23,7 @@ Identifier recomputation and determinism:
  (I3) no entropy / time / address / hash-map iteration is reachable from compute_parms_id.
 """
 from facts import walk, callee, target_key, root_local, strip, local_of, Defs, Tree
-from flow import Flow
+from flow import Flow, cond_atoms
 import r_guard
 
 NONDET_PREFIX = ("rand::", "std::time::", "std::collections::hash::map::HashMap", "std::collections::HashMap",
@@ -129,10 +129,13 @@ def run_validate(facts, rep):
             sib = n.get("el") if sense else n["th"]
             if sib is not None and facts.ty(sib) == "!":
                 new = set(st)
-                for x in walk(n["c"]):
-                    if x.get("k") == "MCall" and x.get("name") in ("is_err", "is_none", "is_ok", "is_some"):
+                for atom, truth in cond_atoms(n["c"], bool(sense)):
+                    x = strip(atom)
+                    if x.get("k") == "MCall":
                         lo = local_of(x["recv"])
-                        if lo:
+                        # on the continuing side we know: is_err()/is_none() is false, or is_ok()/is_some() is true
+                        if lo and ((x.get("name") in ("is_err", "is_none") and not truth) or
+                                   (x.get("name") in ("is_ok", "is_some") and truth)):
                             new.add(lo[1])
                 return frozenset(new)
         return st
